@@ -4,7 +4,7 @@
 # fails its demonstration and that the demonstration passes without it; then stores it.
 export GOFLAGS=-mod=mod GOPROXY=off GOSUMDB=off GOTOOLCHAIN=local
 id=$1; x=$2; prop=$3; name=$4; caught=$5
-wt=/tmp/mut-$id; src=$wt/out/$x
+wt=${MUTROOT:-/tmp/mut}-$id; src=$wt/out/$x
 [ -f $src/patch.diff ] || { echo "no patch"; exit 2; }
 tmp=$(mktemp -d); cp -r $src/* $tmp/
 cd $wt && git checkout -q -- . && git clean -fdq -e out
